@@ -87,9 +87,13 @@ LEVEL = {
             "of catalog, root, node, page, template; kids = indirect-required disjunction node|page|template; /Parent any+indirect; the "
             "listed page-mode/layout/tab names; rectangles = 4 numbers; date, number-tree (reads /Nums) and name-tree predicates; every "
             "key of the rules' tables has the expected entry), equality of the rules' tree recogniser with the model of the two tree "
-            "predicates for ALL objects, a coinduction principle for conformance, and rendered_conforms_partial: every document without "
-            "optional entries, of any shape/fan-out/depth/numbering, conforms (partial: optional entries, the rejection half and the "
-            "machine are covered by the run). The run replays every valid single-rule mutation at every position of 5 documents plus "
+            "predicates for ALL objects, a coinduction principle for conformance, BOTH HALVES of the statement for the declarative reading of the regenerated "
+            "specification: rendered_conforms - every well-formed document of any shape/fan-out/depth/numbering WITH arbitrary optional "
+            "entries of the menu conforms - and mutated_rejected - every valid single-rule mutation (six classes) of every well-formed "
+            "document at every position and depth does not conform -, and date_recogniser_eq_regex_shape (rules' date recogniser = "
+            "model of DateStringPredicate for every byte string). Partial only in that acceptance/rejection by the MACHINE on these "
+            "documents is not a theorem (the machine differs from the declarative reading exactly on the recorded engine findings) "
+            "and is decided by the run. The run replays every valid single-rule mutation at every position of 5 documents plus "
             "random trees through the real checker, the model and the rule oracle. Found and fixed: NumberTreePredicate read /Names "
             "(C10-01), years in non-ASCII digits accepted (C10-02). Remaining engine findings surface as accepted violations "
             "(/Parent given directly; a violation >= 2 levels deep next to an equal sibling): classified known, with witnesses.",
